@@ -280,7 +280,7 @@ def read_model_check(pid, quick, which='seek'):
        which='lap': lapped sample seeks among reads and raw seeks - a lapped seek lands where the plain one does and reports end of file only where nothing
        follows; pinned rule: every BOS page of another serial number taken for the next link.  TLC must refute the pinned rules."""
     out = dict(states=0, transitions=0, configs={}, pinned_rules_refuted={}); viol = []
-    if which == 'seek': cfgs = ['VFRead_MC.cfg'] + ([] if quick else ['VFRead_MC_bsizes.cfg', 'VFRead_MC_half.cfg', 'VFRead_MC_2.cfg', 'VFRead_MC_half2.cfg']); pinned = 'VFRead_MC_pinned_vi.cfg'
+    if which == 'seek': cfgs = ['VFRead_MC.cfg', 'VFRead_MC_span.cfg'] + ([] if quick else ['VFRead_MC_bsizes.cfg', 'VFRead_MC_half.cfg', 'VFRead_MC_2.cfg', 'VFRead_MC_half2.cfg']); pinned = 'VFRead_MC_pinned_vi.cfg'
     elif which == 'lap': cfgs = ['VFRead_MC_lap.cfg'] + ([] if quick else ['VFRead_MC_lap2.cfg']); pinned = 'VFRead_MC_pinned_bos.cfg'
     else: cfgs = ['VFRead_MC_stream_q.cfg'] + ([] if quick else ['VFRead_MC_stream.cfg']); pinned = 'VFRead_MC_pinned_ser.cfg'
     for c in cfgs:
